@@ -78,6 +78,11 @@ def overlap_case(draw):
     d_all = geom.diameter(list(ppos) + [np.array(x) for x in rp["pos"]])
     extent = geom.diameter(pos)
     side = max(extent + 3.0, 2 * d_all + 4 * atol + 1.0)
+    tight = draw(hperm.integers(0, 3)) == 0
+    if tight:
+        # a cell only a little wider than the pattern: occurrences reach across more than half a cell edge, the chain wraps
+        # around and meets its own images (whatever occurrences that creates are found by the reference as well)
+        side = max(0.55 * extent + 1.0, 1.1 * (d_all + 2 * atol) + 0.3)
     cell = np.diag([side, side * draw(st.sampled_from([1.0, 1.3])), side * draw(st.sampled_from([1.0, 1.6]))])
     tilted = draw(hperm.integers(0, 2)) == 0
     if tilted:
@@ -89,6 +94,18 @@ def overlap_case(draw):
         cell = cell * max(1.0, side / geom.perp_widths(cell).min()) * (1 + 1e-9)
     shift = [draw(st.floats(0, side)) for _ in range(3)]
     spos = geom.wrap(cell, pos + np.array(shift))
+    frame = "standard"
+    if draw(hperm.integers(0, 3)) == 0:
+        # the same crystal described in a turned frame: a general 3x3 cell matrix (all angles unchanged)
+        Rf = geom.quat_to_matrix((0.3, 0.5, 0.7, 0.4)) if draw(st.booleans()) else np.asarray(draw(gen_geom.random_rotation()))
+        C2 = cell @ Rf.T
+        if np.abs(C2 - np.diag(np.diag(C2))).max() < 1e-9 * np.abs(C2).max() and (np.diag(C2) < 0).any():
+            # a box along -x / -y / -z (diagonal matrix with negative entries) is outside the domain (DESIGN 9.4): no loader
+            # produces it and the orthorhombic code path reads the box lengths from the diagonal
+            Rf = geom.quat_to_matrix((0.3, 0.5, 0.7, 0.4))
+        cell = cell @ Rf.T
+        spos = spos @ Rf.T
+        frame = "turned"
     nby = draw(hperm.integers(0, 3))
     sels = list(els)
     extra = []
@@ -117,7 +134,7 @@ def overlap_case(draw):
             "rgroups": [4] * len(rp["pos"]), "by_copy": by_copy, "prime": draw(st.booleans()),
             "call": draw(st.sampled_from(["keyword", "keyword", "positional"])),
             "pcells": [draw(st.sampled_from([None, None, None, "small", "big"])), draw(st.sampled_from([None, None, None, "small", "tilted"]))],
-            "meta": {"kind": kind, "repl_kind": rp["kind"], "cell": "tilted" if tilted else "ortho"}}
+            "meta": {"kind": kind, "repl_kind": rp["kind"], "cell": ("tilted" if tilted else "ortho") + ("-tight" if tight else "") + ("-turned" if frame == "turned" else "")}}
 
 
 def build_structure(case):
